@@ -41,7 +41,7 @@ func genC17(t *rapid.T) c17Case {
 	for i := 0; i < n; i++ {
 		l := fmt.Sprintf("r%d", i)
 		loc := rapid.SampledFrom([]string{"la", "la", "lb", "never"}).Draw(t, l+".loc")
-		op := rapid.SampledFrom([]string{"create", "addFact", "addFact", "addFact", "getFact", "remFact", "search", "search", "addRule", "ingest", "listRules", "size", "setParents", "getParents", "query", "enabled", "disable"}).Draw(t, l+".op")
+		op := rapid.SampledFrom([]string{"create", "addFact", "addFact", "addFact", "getFact", "remFact", "search", "search", "addRule", "ingest", "listRules", "size", "setParents", "getParents", "query", "enabled", "disable", "clear", "delete"}).Draw(t, l+".op")
 		if loc == "never" && op == "create" {
 			op = "getFact"
 		}
@@ -101,6 +101,7 @@ func runC17(c c17Case) *vlib.Outcome {
 	cfgs := []cfg{{"forever", sys.Forever}, {"never", sys.Never}, {"1ms", time.Millisecond}}
 	var ref []c18Result
 	writeThenPausedRead := false
+	wiped := false
 	for ci, cf := range cfgs {
 		s, err := c17System(c.Linear, c.Check, cf.ttl)
 		if err != nil {
@@ -155,6 +156,13 @@ func runC17(c c17Case) *vlib.Outcome {
 			if o.Failed() {
 				return o
 			}
+			if (r.Op == "clear" || r.Op == "delete") && res.OK {
+				// whether a cleared or deleted location still counts as
+				// created is not specified; only the agreement between the
+				// cache configurations is checked from here on
+				created[loc] = true
+				wiped = true
+			}
 		}
 		if ci == 0 {
 			ref = results
@@ -171,6 +179,10 @@ func runC17(c c17Case) *vlib.Outcome {
 	if writeThenPausedRead {
 		o.NonTrivial = true
 		o.Label("write-pause-read")
+	}
+	if wiped {
+		o.NonTrivial = true
+		o.Label("clear-or-delete")
 	}
 	return o
 }
